@@ -2,7 +2,8 @@ from __future__ import annotations
 
 from typing import Callable
 
-from ._type_qualifier import Port, Generic
+from ._type_qualifier import Port, Generic, TypeQualifier
+from ._bit_vector import BitVector
 from ._collect_ast_and_scope import FunctionDefinition, InstantiatedFunction
 from cohdl.utility.source_location import SourceLocation
 from ._intrinsic import _intrinsic, _intrinsic_replacement, _IntrinsicInlineEntity
@@ -293,6 +294,17 @@ class Entity(Block):
                     raise AssertionError(
                         f"assignment to port '{name}' failed (src={value}, target={info.ports[name]})"
                     )
+
+                port_type = info.ports[name].type
+
+                if isinstance(value, TypeQualifier) and issubclass(
+                    port_type, BitVector
+                ):
+                    # the assignment above accepts narrower vectors (they are
+                    # extended), the elements of a port map are not converted
+                    assert (
+                        value.width == port_type.width
+                    ), f"width of port '{name}' ({port_type.width}) does not match the width of the connected object ({value.width})"
 
                 self._cohdl_port_definitions[name] = value
             elif name in info.generics:
